@@ -54,6 +54,18 @@ CLAIMS["C20"] = dict(cat="exploration", engine="E1-lattice",
     text="2.1 M records per configuration compared exactly; every decoded frame of the lattice and every history's tracker state round-tripped through two serde formats", ref="3 C20",
     note="trusted: rustc/cargo feature resolution (separate cargo invocations per feature set); std-only timestamps excluded; the case list, not all inputs")
 
+E4_NOTE = ("trusted: the pty/TCP driver (causal synchronisation on /proc io counters, TIOCOUTQ and ratatui's per-draw cursor-hide heartbeat; no verdict on a bare sleep except the 250 ms gap class and the 1.6 s expiry wait with guard bands), the VT screen model, "
+           "the helper `vh feed2table` (real decoder + real tracker) as the table oracle; every violating script is replayed twice before it is reported, disagreeing replays are machinery errors")
+CLAIMS["C16"] = dict(cat="fault_enumeration", engine="E4-apps",
+    tech="exhaustive enumeration of feed schedules on the real radar and 1090 binaries: every cut position of a 3-line feed (<=1 cut quick, <=2 thorough) with a timeout gap, a malformed-line alphabet at every feed position in two timings, every disconnect point with retry on/off",
+    text="all segmentations within the bound, all alphabet lines at all positions, all disconnect points; oracle = echoed payload sequence (1090) / per-aircraft message counts vs the tracker library (radar)", ref="3 C16", note=E4_NOTE)
+CLAIMS["C17"] = dict(cat="model_checking", engine="E4-apps",
+    tech="stateless bounded-depth model checking of the real radar binary under a pty: all event sequences up to depth 1-4 over the key/mouse/resize/traffic alphabet x delivery mode x terminal sizes x tracked-set contexts x option sets; CLI value alphabet",
+    text="every sequence within the bound executed on the real process; oracle = alive until quit, exit 0, no panic text, termios restored, mouse reporting off, cursor shown; invalid CLI values -> usage error", ref="3 C17", note=E4_NOTE)
+CLAIMS["C18"] = dict(cat="model_checking", engine="E4-apps",
+    tech="stateless bounded-depth model checking of the real radar binary with screen reconstruction: all view-control sequences up to depth 2 (quick) / 3 (thorough) over feeds with aircraft and locations in all four quadrants",
+    text="Airplanes tab cells and counters vs the real tracker library fed with the same lines; map geometry (order, 2:1 ratio); view sequences leave the data tab cell-for-cell unchanged and reset restores the initial map", ref="3 C18", note=E4_NOTE)
+
 NOT_YET = {
 }
 
